@@ -102,9 +102,8 @@ int ldb_rb_set64_del(rb_tree_t *tree, uint64_t item) {
 }
 
 /* integer array (fixed capacity) */
-static uint64_t g_arr[LIFE_MAXDIR];
-void ldb_array_init(ldb_array_t *z) { z->items = g_arr; z->length = 0; z->alloc = LIFE_MAXDIR; RG.arr_inits++; }
-void ldb_array_clear(ldb_array_t *z) { RG.arr_clears++; }
+void ldb_array_init(ldb_array_t *z) { z->items = malloc(LIFE_MAXDIR * sizeof(uint64_t)); __CPROVER_assume(z->items != NULL); z->length = 0; z->alloc = LIFE_MAXDIR; RG.arr_inits++; }
+void ldb_array_clear(ldb_array_t *z) { free(z->items); RG.arr_clears++; }
 void ldb_array_push(ldb_array_t *z, uint64_t x) { __CPROVER_assert(z->length < LIFE_MAXDIR, "at most one log per directory entry"); z->items[z->length++] = x; }
 void ldb_array_sort(ldb_array_t *z, int (*cmp)(uint64_t, uint64_t)) {
   size_t i, j;
@@ -140,8 +139,7 @@ int ldb_truncfile_create(const char *filename, ldb_wfile_t **file) {
 }
 void ldb_edit_init(ldb_edit_t *edit) { NG.edit_inits++; edit->has_comparator = edit->has_log_number = edit->has_prev_log_number = edit->has_next_file_number = edit->has_last_sequence = 0; }
 void ldb_edit_clear(ldb_edit_t *edit) { NG.edit_clears++; }
-static const char *g_edit_cmp_name;
-void ldb_edit_set_comparator_name(ldb_edit_t *edit, const char *name) { edit->has_comparator = 1; g_edit_cmp_name = name; }
+void ldb_edit_set_comparator_name(ldb_edit_t *edit, const char *name) { edit->has_comparator = 1; NG.edit_cmp_name = name; }
 void ldb_edit_set_log_number(ldb_edit_t *edit, uint64_t num) { edit->has_log_number = 1; edit->log_number = num; }
 void ldb_edit_set_prev_log_number(ldb_edit_t *edit, uint64_t num) { edit->has_prev_log_number = 1; edit->prev_log_number = num; }
 void ldb_edit_set_next_file(ldb_edit_t *edit, uint64_t num) { edit->has_next_file_number = 1; edit->next_file_number = num; }
@@ -154,7 +152,7 @@ void ldb_buffer_init(ldb_buffer_t *z) { z->data = NULL; z->size = 0; z->alloc = 
 void ldb_buffer_clear(ldb_buffer_t *z) { NG.buf_clears++; }
 void ldb_edit_export(ldb_buffer_t *z, const ldb_edit_t *edit) {
   NG.exports++;
-  NG.x_has_cmp = edit->has_comparator; NG.x_cmp_name = g_edit_cmp_name;
+  NG.x_has_cmp = edit->has_comparator; NG.x_cmp_name = NG.edit_cmp_name;
   NG.x_has_log = edit->has_log_number; NG.x_log = edit->log_number;
   NG.x_has_prev = edit->has_prev_log_number;
   NG.x_has_next = edit->has_next_file_number; NG.x_next = edit->next_file_number;
@@ -220,8 +218,8 @@ void h_newdb(void) {
 #define SHOULD_REPLAY(i, minlog, prevlog) (RG.parses[i] && RG.type[i] == LDB_FILE_LOG && (RG.num[i] >= (minlog) || RG.num[i] == (prevlog)))
 #define PRESENT(n) ((RG.dlen > 0 && RG.parses[0] && RG.num[0] == (n)) || (RG.dlen > 1 && RG.parses[1] && RG.num[1] == (n)) || \
                     (RG.dlen > 2 && RG.parses[2] && RG.num[2] == (n)) || (RG.dlen > 3 && RG.parses[3] && RG.num[3] == (n)))
-#define REPLAYED_HAS(n) ((TG.n > 0 && TG.replayed[0] == (n)) || (TG.n > 1 && TG.replayed[1] == (n)) || \
-                         (TG.n > 2 && TG.replayed[2] == (n)) || (TG.n > 3 && TG.replayed[3] == (n)))
+#define REPLAYED_HAS(x) ((TG.n > 0 && TG.replayed[0] == (x)) || (TG.n > 1 && TG.replayed[1] == (x)) || \
+                        (TG.n > 2 && TG.replayed[2] == (x)) || (TG.n > 3 && TG.replayed[3] == (x)))
 
 static void recover_inputs(ldb_t *db) {
   int i;
@@ -239,7 +237,8 @@ static void recover_inputs(ldb_t *db) {
   g_gc_allowed = 0;
   __CPROVER_assume(RG.db_exists == 0 || RG.db_exists == 1);
   __CPROVER_assume(RG.dlen >= -1 && RG.dlen <= LIFE_MAXDIR);
-  for (i = 0; i < LIFE_MAXDIR; i++) __CPROVER_assume((RG.parses[i] == 0 || RG.parses[i] == 1) && RG.type[i] >= LDB_FILE_LOG && RG.type[i] <= LDB_FILE_INFO);
+  for (i = 0; i < LIFE_MAXDIR; i++) __CPROVER_assume((RG.parses[i] == 0 || RG.parses[i] == 1) && RG.type[i] >= LDB_FILE_LOG && RG.type[i] <= LDB_FILE_INFO &&
+                                                     RG.num[i] < (1ull << 62));   /* file numbers on disk are far from wrapping the 64-bit allocator */
   __CPROVER_assume(RG.nexp >= 0 && RG.nexp <= 2 && RG.exp[0] != RG.exp[1]);
 }
 
